@@ -1,6 +1,7 @@
 package main
 
 import (
+	"bytes"
 	"strconv"
 	"encoding/hex"
 	"fmt"
@@ -35,8 +36,26 @@ func genMarshal(tier string, seed uint64) {
 			}
 			for i := 0; i < cnt; i++ {
 				v := genValue(r, t, genOpts{depth: 1 + r.intn(4)})
-				emit("marshal %d %d %d %s", a.id, tid(t), r.intn(2), v)
+				vp := r.intn(2)
+				emit("marshal %d %d %d %s", a.id, tid(t), vp, v)
+				if i%4 == 0 {
+					// the same through the STATEFUL model of the marshaller (slab rows, machine stack), started from an
+					// instance that abandoned a run
+					emit("marshalm %d %d %d %s", a.id, tid(t), vp, v)
+				}
 			}
+		}
+	}
+	// transforms whose serial type needs the same slab row again (chained transforms, a pointer to a type whose transform
+	// yields a pointer): the library refuses them, it neither panics nor recurses without bound; the neighbours that
+	// can be served are served
+	cht, chu, chw := tid(reflect.TypeOf(ChT{})), tid(reflect.TypeOf(ChU{})), tid(reflect.TypeOf(ChW{}))
+	pchw, pchu, slu := tid(reflect.TypeOf((*ChW)(nil))), tid(reflect.TypeOf((*ChU)(nil))), tid(reflect.TypeOf([]ChU{}))
+	for _, vp := range []int{0} {
+		for _, c := range []string{fmt.Sprintf("%d %d S(s61)", cht, vp), fmt.Sprintf("%d %d S(s6162)", chu, vp), fmt.Sprintf("%d %d S(s77)", chw, vp),
+			fmt.Sprintf("%d %d PS(s77)", pchw, vp), fmt.Sprintf("%d %d n", pchw, vp), fmt.Sprintf("%d %d PS(s)", pchu, vp), fmt.Sprintf("%d %d [S(s61),S(s62)]", slu, vp),
+			fmt.Sprintf("%d %d []", slu, vp)} {
+			emit("marshalm 90 %s", c)
 		}
 	}
 }
@@ -88,6 +107,12 @@ func genUnmarshal(tier string, seed uint64) {
 				}
 			}
 			rec(nil)
+		}
+	}
+	// 1a. targets whose transform the machinery cannot serve (atlas 90): refused at Bind, whatever the input
+	for _, t := range []reflect.Type{reflect.TypeOf(ChT{}), reflect.TypeOf(ChU{}), reflect.TypeOf(ChW{}), reflect.TypeOf((*ChW)(nil)), reflect.TypeOf((*ChU)(nil))} {
+		for _, in := range []string{"s61", "0", "[1,s61,]", "{0,}", "i5"} {
+			emit("unmarshal 90 %d %s", tid(t), in)
 		}
 	}
 	// 1b. a repeated map key must be refused whatever its length (short, around one machine word of bits, long)
@@ -428,6 +453,23 @@ func genPump(tier string, seed uint64) {
 				emit("pump cbor json %s %s %s", ind[0], ind[1], hexOrDash(item))
 			}
 		}
+	}
+	// chunked strings totalling more than 1 MiB (growth steps of an accumulation buffer), numbers JSON spells in ways
+	// CBOR does not
+	for _, nh := range []int{17, 18, 19, 36} {
+		var b []byte
+		b = append(b, 0x7f)
+		for i := 0; i < nh; i++ {
+			b = append(append(b, headBytes(0x60, 60000, 0)...), bytes.Repeat([]byte{byte(0x61 + i%26)}, 60000)...)
+		}
+		b = append(b, 0xff)
+		emit("pump cbor json nil - %s", hexOrDash(b))
+		emit("pump cbor cbor nil - %s", hexOrDash(b))
+	}
+	for _, lit := range []string{"123456789012345678901234567890E-10", "18446744073709551616E+2", "18446744073709551616e+2", "1E2", "[1E400]", "-0", "[1e19,1E19]",
+		strings.Repeat("9", 70), strings.Repeat("9", 70) + "E-60", "{\"a\":2E0,\"b\":2e0}"} {
+		emit("pump json cbor nil - %x", lit)
+		emit("pump json json nil - %x", lit)
 	}
 	emitShapes("pump", tier)
 	// line / indent options whose separator (comma + line + depth * indent) crosses the sizes of the encoder's fixed
